@@ -138,15 +138,9 @@ def queue_routing(ctx: Ctx):
             oks = bool(dv and dv[0] == 'value' and isinstance(dv[1], ast.Call) and isinstance(dv[1].func, ast.Name) and dv[1].func.id == 'thunk')
     yield ctx.ob('SUPPORT.QUEUE-ROUTING', ok and oks, tgt, tgt.node, 'child puts (future_id, thunk()) / (future_id, ex) on its result queue',
                  '' if ok and oks else 'the child does not report its own id together with the outcome of its own thunk')
-    from .executor import executor
+    from .executor import executor, queue_consumer
     ex = executor(ctx)
-    cons = None
-    for m in ex.cls.methods.values():
-        for f in m.nested.values():
-            if any(isinstance(c.func, ast.Attribute) and c.func.attr == 'get' and 'result_queue' in src(c.func.value) for c in calls_in(f.node)):
-                cons = f
-    if cons is None:
-        raise AnalysisError('result-queue consumer closure not found')
+    cons, _host, _thread = queue_consumer(ctx)
     g = ctx.cfg(cons)
     rd = ctx.rd(cons)
     get = [c for c in calls_in(cons.node) if isinstance(c.func, ast.Attribute) and c.func.attr == 'get' and 'result_queue' in src(c.func.value)][0]
